@@ -164,8 +164,6 @@ pub fn check_tokens(input: &str, toks: &[Token], info: &mut Info) -> Result<(), 
 }
 
 fn stmt_kind_name(st: &Statement) -> String {
-    let d = format!("{:?}", std::mem::discriminant(&st.kind));
-    let _ = d;
     // Debug of the kind would walk the whole tree; take the variant name cheaply
     match &st.kind {
         StatementKind::Empty => "Empty".into(),
